@@ -37,10 +37,11 @@ type c03Cell struct {
 	CdpStrict  bool   `json:"cdp_strict"`
 	Storage    string `json:"storage"`
 	ChainShape int    `json:"chains"` // 0,1,2
+	NoOCSPSect bool   `json:"no_ocsp_config"` // the configuration has no ocsp_config section at all (JSON form)
 }
 
 func (c c03Cell) key() string {
-	return fmt.Sprintf("%s/%s/%v/%s/%v/%s/%d", c.Mode, c.Ocsp, c.AiaStrict, c.Crl, c.CdpStrict, c.Storage, c.ChainShape)
+	return fmt.Sprintf("%s/%s/%v/%s/%v/%s/%d/noocspsect=%v", c.Mode, c.Ocsp, c.AiaStrict, c.Crl, c.CdpStrict, c.Storage, c.ChainShape, c.NoOCSPSect)
 }
 
 func runC03(r *Run) {
@@ -61,7 +62,7 @@ func runC03(r *Run) {
 					for _, cs := range []bool{false, true} {
 						for _, st := range []string{"memory", "disk"} {
 							for sh := 0; sh <= 2; sh++ {
-								cells = append(cells, c03Cell{m, o, as, c, cs, st, sh})
+								cells = append(cells, c03Cell{m, o, as, c, cs, st, sh, false})
 							}
 						}
 					}
@@ -79,6 +80,15 @@ func runC03(r *Run) {
 			}
 		}
 		cells = q
+	}
+	// the sections present in the configuration must not change what the mode means: unset and prefer_* modes with a
+	// crl_config only (OCSP needs no configuration: the responders are named by the certificate)
+	for _, m := range []string{"", "prefer_ocsp", "prefer_crl", "ocsp_only"} {
+		for _, o := range ocsps {
+			for _, c := range crls {
+				cells = append(cells, c03Cell{Mode: m, Ocsp: o, Crl: c, Storage: "memory", ChainShape: 1, NoOCSPSect: true})
+			}
+		}
 	}
 	parallel(len(cells), 16, func(i int) { c03RunCell(r, ca, origin, i, cells[i]) })
 
@@ -182,7 +192,7 @@ func c03RunCell(r *Run, ca *CA, origin *Origin, idx int, c c03Cell) {
 	sa := c03MakeSubject(ca, origin, fmt.Sprintf("%da", idx), c)
 	sb := c03MakeSubject(ca, origin, fmt.Sprintf("%db", idx), c)
 	mk := func() (*Validator, error) {
-		return Provision(VCfg{Mode: c.Mode, WorkDir: scratchDir("c03"), Storage: c.Storage, CDPStrict: c.CdpStrict, OCSPStrict: c.AiaStrict})
+		return Provision(VCfg{Mode: c.Mode, WorkDir: scratchDir("c03"), Storage: c.Storage, CDPStrict: c.CdpStrict, OCSPStrict: c.AiaStrict, NoOCSPConfig: c.NoOCSPSect})
 	}
 	// expected mechanism outcomes by construction
 	oExp := map[string]string{"noaia": "good", "good": "good", "revoked": "revoked", "unavailable": "good"}[c.Ocsp]
